@@ -30,6 +30,8 @@ type F struct {
 type Case struct {
 	Target int `json:"target"` // 0..7: FC1TCP FC1RTU FC2TCP FC2RTU FC3TCP FC3RTU FC4TCP FC4RTU
 	Fields []F `json:"fields"`
+	// Sequence, when set, is a list of targets called one after another on one builder (evalSequence)
+	Sequence []int `json:"sequence,omitempty"`
 }
 
 type local struct{ evals, ok, multi int64 }
@@ -242,6 +244,57 @@ func eval(c Case, res *ev.Result, lc *local) {
 	}
 }
 
+// callOn runs one Read* call on an existing builder.
+func callOn(b *modbus.Builder, target int) (reqs []modbus.BuilderRequest, err error, pan string) {
+	defer func() {
+		if rec := recover(); rec != nil {
+			pan = fmt.Sprint(rec)
+		}
+	}()
+	switch target {
+	case 0:
+		reqs, err = b.ReadCoilsTCP()
+	case 1:
+		reqs, err = b.ReadCoilsRTU()
+	case 2:
+		reqs, err = b.ReadDiscreteInputsTCP()
+	case 3:
+		reqs, err = b.ReadDiscreteInputsRTU()
+	case 4:
+		reqs, err = b.ReadHoldingRegistersTCP()
+	case 5:
+		reqs, err = b.ReadHoldingRegistersRTU()
+	case 6:
+		reqs, err = b.ReadInputRegistersTCP()
+	case 7:
+		reqs, err = b.ReadInputRegistersRTU()
+	}
+	return
+}
+
+// evalSequence: from a non-initial state - the Read* calls of one builder, issued one after another in the given
+// order on the SAME builder, must each return what a fresh builder returns for that call (a call that rearranges the
+// builder's own field list would show here and nowhere else).
+func evalSequence(fs []F, order []int, res *ev.Result, lc *local) {
+	lc.evals++
+	fields := make(modbus.Fields, len(fs))
+	for i, f := range fs {
+		fields[i] = f.field(i)
+	}
+	shared := modbus.NewRequestBuilder("", 0).AddAll(fields)
+	for step, t := range order {
+		fresh, ferr, fpan := call(t, append(modbus.Fields(nil), fields...))
+		got, gerr, gpan := callOn(shared, t)
+		same := fpan == gpan && (ferr == nil) == (gerr == nil) && (ferr != nil || canon(fresh) == canon(got))
+		if !same {
+			res.Violate(ev.Violation{Check: "batch", Kind: "depends-on-earlier-calls", Attrs: map[string]any{"step": step},
+				Msg:  fmt.Sprintf("builder with fields %+v: call %d of the sequence %v returned %s (err %v, panic %q); a fresh builder returns %s (err %v)", fs, step, order, canon(got), gerr, gpan, canon(fresh), ferr),
+				Case: Case{Target: t, Fields: fs, Sequence: order}})
+			return
+		}
+	}
+}
+
 func canon(reqs []modbus.BuilderRequest) string {
 	var s []string
 	for _, r := range reqs {
@@ -287,7 +340,7 @@ func run(tier string, shard, nsh int, res *ev.Result) {
 	invalid := []F{{"", 1, 5, 5, 0, 0}, {"A", 1, 5, 0, 0, 0}, {"A", 1, 5, 15, 0, 0}, {"A", 1, 5, 1, 16, 0}, {"A", 1, 5, 13, 0, 0}, {"A", 1, 5, 14, 16, 0}}
 	var pairA []F
 	for _, a := range addrs {
-		for _, tl := range [][2]uint8{{1, 0}, {5, 0}, {7, 0}, {9, 0}, {13, 1}, {13, 3}, {13, 250}, {13, 251}, {14, 0}} {
+		for _, tl := range [][2]uint8{{1, 0}, {5, 0}, {7, 0}, {9, 0}, {13, 1}, {13, 3}, {13, 250}, {13, 251}, {13, 254}, {13, 255}, {14, 0}} {
 			pairA = append(pairA, F{"A", 1, a, tl[0], 2, tl[1]})
 		}
 	}
@@ -298,6 +351,20 @@ func run(tier string, shard, nsh int, res *ev.Result) {
 		}
 	}
 	var jobs []func(lc *local)
+	jobs = append(jobs, func(lc *local) { // sequences of Read* calls on one builder holding both kinds
+		mixed := [][]F{
+			{{"A", 1, 10, 5, 0, 0}, {"A", 1, 5, 14, 0, 0}, {"A", 1, 20, 9, 0, 0}, {"A", 1, 7, 14, 0, 0}},
+			{{"A", 1, 5, 14, 0, 0}, {"A", 1, 10, 5, 0, 0}, {"A", 1, 7, 14, 0, 0}, {"A", 1, 20, 9, 0, 0}},
+			{{"A", 1, 10, 5, 0, 0}, {"B", 2, 5, 14, 0, 0}, {"A", 1, 300, 7, 0, 0}, {"A", 1, 2500, 14, 0, 0}, {"B", 2, 11, 1, 3, 0}},
+			{{"A", 1, 0, 14, 0, 0}, {"A", 1, 0, 14, 0, 0}, {"A", 1, 1, 5, 0, 0}, {"A", 1, 1, 5, 0, 0}},
+		}
+		orders := [][]int{{0, 4}, {4, 0}, {0, 4, 2}, {4, 0, 4}, {3, 5, 1, 7}, {6, 2, 6, 2}, {0, 0}, {4, 4}, {1, 4, 3, 6, 0, 5, 2, 7}}
+		for _, m := range mixed {
+			for _, o := range orders {
+				evalSequence(m, o, res, lc)
+			}
+		}
+	})
 	for target := 0; target < 8; target++ {
 		target := target
 		jobs = append(jobs, func(lc *local) { // empty list, singles, invalid definitions
@@ -441,6 +508,10 @@ func replay(check string, raw json.RawMessage, res *ev.Result) {
 	var c Case
 	json.Unmarshal(raw, &c)
 	var lc local
+	if len(c.Sequence) > 0 {
+		evalSequence(c.Fields, c.Sequence, res, &lc)
+		return
+	}
 	eval(c, res, &lc)
 }
 
